@@ -6,6 +6,8 @@
 // the real dynblock.Expand and decoded with hcldec.Decode, and compared with
 // the decoding of the reference write-out (verif/ref/refdec.Expand): one
 // static block per element, iterator replaced by a fresh variable per element.
+// Marks are compared exactly (refbody.go); an unknown for_each is compared with
+// the README's single block with an unknown iterator (judgePlaceholder).
 package main
 
 import (
@@ -1005,10 +1007,12 @@ func conforms(got, want cty.Type) bool {
 	return want.HasDynamicTypes() || got.Equals(want)
 }
 
-// markShape names the construct for the mark classes: where the marked
-// collections sit (outer / nested dynamic block) and what the spec kind of x is.
+// markShape names the construct for the mark classes: at which nesting levels
+// a dynamic block iterates over a marked collection, whether the levels carry
+// the same marks, and the spec kind of x.
 func markShape(d Data, wo *refdec.WriteOut) string {
-	var levels []string
+	levels := map[string]bool{}
+	sets := map[string]bool{}
 	var walk func(b *sg.Body, depth int)
 	walk = func(b *sg.Body, depth int) {
 		if b == nil {
@@ -1021,16 +1025,12 @@ func markShape(d Data, wo *refdec.WriteOut) string {
 				dd++
 				if bl.Dyn.ForEach.K == "ref" {
 					if v, ok := Globals[bl.Dyn.ForEach.Ref[0]]; ok && v.IsMarked() {
-						l := "outer"
-						if depth >= 1 {
-							l = "nested"
-						}
-						have := false
-						for _, x := range levels {
-							have = have || x == l
-						}
-						if !have {
-							levels = append(levels, l)
+						_, m := v.Unmark()
+						sets[refdec.MarksKey(m)] = true
+						if depth == 0 {
+							levels["outer"] = true
+						} else {
+							levels["nested"] = true
 						}
 					}
 				}
@@ -1039,16 +1039,21 @@ func markShape(d Data, wo *refdec.WriteOut) string {
 		}
 	}
 	walk(d.Body, 0)
-	sort.Strings(levels)
-	where := strings.Join(levels, "-and-")
-	if where == "" {
-		where = "derived"
+	where := "derived-collection-marked" // marks inside the collection or coming through an outer iterator
+	switch {
+	case levels["outer"] && levels["nested"]:
+		where = "outer-and-nested-collection-marked"
+		if len(sets) > 1 {
+			where += "-differently"
+		} else {
+			where += "-alike"
+		}
+	case levels["outer"]:
+		where = "outer-collection-marked"
+	case levels["nested"]:
+		where = "nested-collection-marked"
 	}
-	sets := "one-mark-set"
-	if len(wo.MarkSets) > 1 {
-		sets = "different-mark-sets"
-	}
-	return xKind(d.Spec) + "." + where + "-collection-marked." + sets
+	return xKind(d.Spec) + "." + where
 }
 
 // judgePlaceholder: the clauses about the documented write-out of an unknown for_each.
@@ -1450,12 +1455,15 @@ func main() {
 			"(interleave) every layout of length <= 3 with one principal block over {S,Y,D} (thorough +E) x 5 (10) collections x {default, shadowing} x 2 content forms x K x label forms; " +
 			"(nest) 6 nestings (static z using the outer iterator, dynamic z over a global using both iterators, dynamic z over it.value.kids, dynamic z re-using the outer iterator name, static/dynamic/static z, dynamic z over an unknown) x Kz x 3 layouts x 7 collections x 4 iterators x 2 content forms x 6 K x {top level, inside a static block w} x syntaxes. " +
 			"(nest-3level) dynamic x > z > v (z, v each dynamic or static) with 6 iterator-name schemes (all default; outer=middle; outer=inner with another middle; all equal; inner = default name of middle; middle = default name of outer), innermost content using key and value of every name in scope, for_each of z / v from a global or from the nearest iterator, Kx in {list,tuple} x Kz, Kv in {list,tuple,block,map with labels from outer and own iterator} x syntaxes. " +
+			"(nest-marks) top = g; dynamic x over O { a; [dynamic z over I]; [static z]; [static s { c = x.key; dynamic z over I }]; static t { d } }; static y: O and I independently in {1 element, 2 elements, empty, unknown, marked A, marked B, marked A and B, unknown marked A, empty marked B} (thorough + maps, DynamicVal, lists of objects with I = x.value.kids) x nested dynamic block {directly in the content, inside the static child block s, both} x a in {constant, x.value} x b in {constant, template of x.key and z.value} x Kx in {list,tuple,set,block} x Kz in {list,block,set} x syntaxes. " +
+			"Marks are compared exactly (cumulative marks of every leaf) with a write-out in which everything inside a block generated from a marked collection carries its marks; an unknown for_each is additionally compared with the README's write-out (one block, iterator key and value unknown): not more known than it, equal where known, no error where it decodes, no mark from elsewhere, the collection's marks present. " +
 			"Every case additionally: same expanded body decoded twice; expansion with context A, then B (same names, other values; compared with B's own write-out), then A again. distinct = distinct (shape, decoded value)",
 		Assumptions: []string{
 			"hclsyntax / json parsing, expression evaluation and go-cty are trusted; hcldec decoding of a static body is the subject of C08 and used on both sides",
 			"iteration order and keys are those of go-cty (lists/tuples by index, maps/objects by sorted key, sets in go-cty's set order with key = value)",
 			"for_each and labels see the enclosing iterators (labels also their own); an inner iterator of the same name hides the outer one and a global",
-			"values are compared with RawEquals including marks unless a for_each collection is marked (mark propagation is C06's subject), then after UnmarkDeep",
+			"values are compared with RawEquals including marks; when a for_each collection is marked the write-out is decoded through a pass-through body that marks everything inside a block generated from a marked collection with that collection's marks (hcldec.MarkedBody for the block values, the attribute values directly), and a difference is tolerated only if value and cumulative marks of every leaf agree",
+			"an unknown for_each stands for a single block whose iterator key and value are cty.DynamicVal (ext/dynblock/README.md); the real result may be unknown where that block's decoding is known, never the reverse",
 		},
 		Gen:   gen,
 		Judge: judge,
@@ -1467,7 +1475,7 @@ func main() {
 			}
 			return m
 		},
-		QuickBudget:    6 * time.Minute,
+		QuickBudget:    15 * time.Minute,
 		ThoroughBudget: 40 * time.Minute,
 	})
 }
